@@ -108,8 +108,23 @@ pub struct ModSpec {
     pub emit_at_end: bool,
 }
 
+/// A node built from des' own building block `AsyncFn`: the generated future owns a tracked token, keeps every
+/// message it receives and never finishes (it is blocked in `rx.recv()` when the simulation is dropped).
+#[derive(Clone, Debug, Serialize, Deserialize)]
+pub struct BlockSpec {
+    /// 0: AsyncFn::new, 1: AsyncFn::failable, 2: AsyncFn::io
+    pub kind: u8,
+    /// an ordinary module with tracked state below the block node
+    pub child: bool,
+    /// messages with tracked bodies injected at these instants (ms)
+    pub msgs: Vec<u16>,
+}
+
 #[derive(Clone, Debug, Serialize, Deserialize)]
 pub struct Case {
+    /// nodes built with AsyncFn (standalone, fed by injected messages)
+    #[serde(default)]
+    pub blocks: Vec<BlockSpec>,
     pub mods: Vec<ModSpec>,
     /// processing elements (with a token each) in the global stack
     pub stack: u8,
@@ -254,6 +269,54 @@ pub fn run_case(case: &Case) -> Result<(bool, Vec<&'static str>), Failure> {
         );
         paths.push(p);
     }
+    let mut block_paths: Vec<String> = Vec::new();
+    for (k, b) in case.blocks.iter().take(3).enumerate() {
+        use des::net::blocks::AsyncFn;
+        type Rx = tokio::sync::mpsc::Receiver<Message>;
+        async fn hoard(mut rx: Rx) {
+            let _own = Tok::new("state captured by an AsyncFn future");
+            let mut kept: Vec<Message> = Vec::new();
+            while let Some(m) = rx.recv().await {
+                kept.push(m);
+            }
+        }
+        let p = format!("afn{k}");
+        let node = match b.kind % 3 {
+            0 => AsyncFn::new(hoard),
+            1 => AsyncFn::failable(|rx: Rx| async move {
+                hoard(rx).await;
+                Ok::<(), std::fmt::Error>(())
+            }),
+            _ => AsyncFn::io(|rx: Rx| async move {
+                hoard(rx).await;
+                Ok(())
+            }),
+        };
+        sim.node(p.as_str(), node);
+        if b.child {
+            sim.node(
+                format!("{p}.child").as_str(),
+                M {
+                    state: Tok::new("module state (child of an AsyncFn node)"),
+                    spec: ModSpec {
+                        parent: None,
+                        burst: Vec::new(),
+                        selfs: Vec::new(),
+                        tasks: Vec::new(),
+                        must_join: false,
+                        shutdown: None,
+                        panic_at: None,
+                        keep_last: false,
+                        emit_at_end: false,
+                    },
+                    handled: 0,
+                    kept: None,
+                    rx_keepalive: Vec::new(),
+                },
+            );
+        }
+        block_paths.push(p);
+    }
     let links = if case.ring { n } else { n - 1 };
     for i in 0..n {
         // every module owns an out gate; only `links` of them are wired
@@ -289,7 +352,14 @@ pub fn run_case(case: &Case) -> Result<(bool, Vec<&'static str>), Failure> {
                 Stop::MaxTimeMs(t) => b.max_time(st(*t as u128 * 1_000_000)),
                 _ => b.max_itr(200_000),
             };
-            let rt = b.build(sim.freeze());
+            let mut rt = b.build(sim.freeze());
+            for (k, p) in block_paths.iter().enumerate() {
+                let target = rt.app.get(&ObjectPath::from(p.as_str())).unwrap();
+                for (j, t) in case.blocks[k].msgs.iter().take(6).enumerate() {
+                    let body = TokBody(Tok::new("message body (injected at an AsyncFn node)"), 3);
+                    rt.handle_message_on(target.clone(), Message::default().id(j as u16).with_content(body), st(*t as u128 * 1_000_000 + 700 + j as u128));
+                }
+            }
             let res = match catch(|| rt.run()) {
                 Ok(r) => r,
                 Err((msg, loc)) => vfail!("simulator-aborted", "run() unwound: {msg} @ {loc}"),
@@ -331,6 +401,9 @@ pub fn run_case(case: &Case) -> Result<(bool, Vec<&'static str>), Failure> {
     if case.ring {
         labels.push("ring");
     }
+    if !block_paths.is_empty() {
+        labels.push("AsyncFn-building-block");
+    }
     if case.mods.iter().take(n).any(|m| m.emit_at_end) && !matches!(case.stop, Stop::BuilderDropped | Stop::SimDropped | Stop::RuntimeDroppedBeforeStart) {
         labels.push("events-emitted-during-tear-down");
     }
@@ -348,7 +421,8 @@ impl Prop for C20 {
         "proptest: 1..8 modules (flat or parent/child) wired as a ring or chain over slow queueing channels, each pushing a burst of instance-tracked \
          message bodies at start (channel backlog), scheduling tracked self messages, spawning tasks blocked on a one-hour sleep / pending / recv / \
          short sleep that own tracked tokens (try_join or must-join), optionally shutting down (and restarting), panicking in the k-th handler \
-         call, keeping the last message in its state, emitting messages from at_sim_end; 0..2 tracked processing elements per module; stopping point in {builder dropped, frozen Sim \
+         call, keeping the last message in its state, emitting messages from at_sim_end; 0..2 nodes built with des' AsyncFn building block (new / failable / io) whose \
+         future owns a token, hoards the injected messages and is blocked in recv() at the drop, optionally with a child module; 0..2 tracked processing elements per module; stopping point in {builder dropped, frozen Sim \
          dropped, Runtime dropped before start, max_itr(k), max_time(t), run to completion (possibly ending with PanicError / NotFinished)}. Oracle: \
          after dropping every value the API returned, every tracked instance was dropped exactly once (none alive, none twice), and a canonical \
          follow-up simulation reproduces the trace of a fresh process. Non-trivial iff events were pending at the stop AND a channel had a \
@@ -397,14 +471,17 @@ impl Prop for C20 {
             3 => (0u16..60).prop_map(Stop::MaxTimeMs),
             3 => Just(Stop::Complete),
         ];
+        let block = (0u8..3, any::<bool>(), proptest::collection::vec(0u16..40, 0..5)).prop_map(|(kind, child, msgs)| BlockSpec { kind, child, msgs });
         (
             proptest::collection::vec(m, 1..=8),
             0u8..3,
             any::<bool>(),
             prop_oneof![Just(8_000u32), Just(100_000), Just(1_000_000), Just(100)],
             stop,
+            prop_oneof![2 => Just(Vec::new()), 1 => proptest::collection::vec(block, 1..3)],
         )
-            .prop_map(|(mods, stack, ring, bitrate, stop)| Case {
+            .prop_map(|(mods, stack, ring, bitrate, stop, blocks)| Case {
+                blocks,
                 mods,
                 stack,
                 ring,
